@@ -212,6 +212,8 @@ func c12(r *core.Run) {
 	c17ExactTokens(r, "T4", []string{rel}, "badgerstore")
 	r.Rule("T5", "what the rebuilt index returns is the stored id (shared with C13.K1): the reader of index entries splits at the last separator byte, so an index key that itself contains the separator (binary keys) cannot shift the boundary between key and id", 1)
 	c13ReaderSplitsLast(r, "T5", rel)
+	r.Rule("T6", "an acknowledged write went to the key of its own id (shared with C11.K3 / C16.O4): no database key is built by appending to a slice kept in the store - with spare capacity every open transaction's key is the same memory, and a second transaction redirects the first one's write to another id", 1)
+	c16NoForeignAppend(r, "T6", []string{rel}, "badgerstore")
 	c12InitAnnounce(r, "I2", rel)
 	r.Rule("I3", "all-or-nothing seeding: in the function Init hands to the user's callback every return that did not collect the entry has recorded a non-nil error in the variable that the transaction body returns after the callback (or found one recorded already), and the transaction body returns that variable when it is non-nil before it writes anything; an invalid seed that is merely skipped lets Init commit the marker over a partial seed set", 2)
 	c12InitAllOrNothing(r, "I3", rel)
@@ -785,6 +787,51 @@ func c13(r *core.Run) {
 		}
 		same := sameVariable(seek.Common().Args[1], valid.Common().Args[1])
 		r.Check(!same, "D1", core.FuncName(f2), "reverse-capable-iterator:Seek-key!=ValidForPrefix-key", p.InstrPos(seek), "the seek key is direction-dependent (differs from the bare prefix)", "a possibly reversed iterator is positioned with Seek(prefix) and tested with ValidForPrefix(prefix): in reverse mode Seek lands before every key that extends the prefix, so the query returns nothing")
+		// the reverse seek key is the prefix *extended* by the largest byte: every value the key
+		// can take other than the prefix itself is append(<copy of the prefix>, 0xFF). Byte arithmetic
+		// on the prefix (prefix[len-1]++) wraps for a prefix ending in 0xFF and lands before the range.
+		if !same {
+			why := ""
+			nExt := 0
+			for _, lf := range valueLeaves(seek.Common().Args[1], nil, 0) {
+				v := core.Strip(lf.V)
+				if sameVariable(v, valid.Common().Args[1]) {
+					continue
+				}
+				if _, isPrm := v.(*ssa.Parameter); isPrm {
+					continue // the prefix as a helper sees it
+				}
+				call, ok := v.(*ssa.Call)
+				if ok && core.CalleeName(call) == "builtin:append" && len(call.Call.Args) == 2 {
+					if k, isK := core.ConstInt(elemOfVarargs(call.Call.Args[1])); isK && k == 0xFF {
+						nExt++
+						continue
+					}
+				}
+				why = valDesc(lf.V)
+			}
+			// ... and nothing stores into an element of a byte slice in the scan (the key is built, not patched)
+			keyVals := map[ssa.Value]bool{}
+			for _, lf := range valueLeaves(seek.Common().Args[1], nil, 0) {
+				keyVals[core.Strip(lf.V)] = true
+			}
+			for _, g := range p.Helpers(f2) {
+				for _, b := range g.Blocks {
+					for _, in := range b.Instrs {
+						if st, ok := in.(*ssa.Store); ok {
+							if ia, ok := st.Addr.(*ssa.IndexAddr); ok && isByteSlice(ia.X.Type()) {
+								for _, src := range phiSources(ia.X) {
+									if keyVals[core.Strip(src.V)] {
+										why = "element store into the key at " + p.InstrPos(st)
+									}
+								}
+							}
+						}
+					}
+				}
+			}
+			r.Check(why == "" && nExt > 0, "D1", core.FuncName(f2), "reverse-seek-key=prefix+0xFF", p.InstrPos(seek), "in reverse the scan starts at the prefix extended by 0xFF", "the reverse seek key is not the prefix extended by 0xFF ("+why+"): computed by byte arithmetic on the prefix it wraps around for a prefix that ends in 0xFF and the reverse query returns nothing although the forward query finds the values")
+		}
 	}
 
 	// W1
@@ -1096,6 +1143,8 @@ func c14(r *core.Run) {
 	r.Rule("N3", "query handler: a reset flag yields a reset event (resources) or a fresh result reply (query requests) and no per-event dispatch; both event dispatchers handle the same event names; errors are returned / replied", 3)
 
 	r.Rule("V1", "every query request gets its own answer (shared with C15.C1 / C16.V1): no closure created in a loop and handed to the per-group queue captures a variable the loop re-assigns (the module's go directive gives loop variables one instance per loop); the listener of a query event would otherwise hand every pending request's closure the latest message", 1)
+	r.Rule("N6", "the change is asked about the query the result is fetched with: in the query handler, wherever a request-handler callback translates the request into the store's query, QueryChange.Events receives that translated query (through phis), not the raw request query", 1)
+	c14EventsGetTheStoreQuery(r, "N6")
 	r.Rule("N5", "an empty key is a key: a query is affected by a value whose index key is empty but not nil exactly like by any other value - 'the value does not exist / is not indexed' is decided by nil tests, never by the length of a key", 1)
 	c13KeyPresenceByNil(r, "N5", rel)
 	r.Rule("N4", "no query change without a mutation (shared with C12.I2): Init announces as created only the seeds it wrote; a seed skipped because its id already holds a value would otherwise run the query-change callbacks for a value that was never stored, index it next to the real one and report queries on the phantom key as affected", 1)
@@ -3091,4 +3140,91 @@ func c13ReaderSplitsLast(r *core.Run, rule, rel string) {
 		}
 	}
 	r.Check(last != nil && first == nil, rule, core.FuncName(fc), "reader-splits-at-last-separator", posOf(p, last), "the id is what follows the last separator of the entry", "the reader of index entries does not (only) split at the last separator: an index key that contains the separator byte (a binary key) yields a wrong id, a truncated key for the filter, or drops the entry")
+}
+
+// c14EventsGetTheStoreQuery: where the query handler lets a request-handler
+// callback translate the request into the *store's* query, that translated
+// query - the one the result is fetched with - is what the change is asked
+// about (QueryChange.Events). Asking with the untranslated request query
+// answers "not affected" for every parameter the translation renames.
+func c14EventsGetTheStoreQuery(r *core.Run, rule string) {
+	p := r.P
+	n := 0
+	isValues := func(t types.Type) bool { return types.TypeString(t, nil) == "net/url.Values" }
+	for _, m := range methodsOf(p, "store", "queryHandler") {
+		for _, fn := range withAnon(m) {
+			var evCalls []ssa.CallInstruction
+			var translated []ssa.Value
+			for _, c := range core.Calls(fn) {
+				if c.Common().IsInvoke() && c.Common().Method.Name() == "Events" {
+					evCalls = append(evCalls, c)
+				}
+				// a dynamic call of a callback member of the handler whose first result is url.Values
+				if core.IsDynamic(c) && !c.Common().IsInvoke() && c.Value() != nil {
+					if f, ok := core.LoadedField(c.Common().Value); ok && strings.HasSuffix(f.Struct, "queryHandler") {
+						v := c.Value()
+						if tup, isT := v.Type().(*types.Tuple); isT && tup.Len() > 0 && isValues(tup.At(0).Type()) && v.Referrers() != nil {
+							for _, rf := range *v.Referrers() {
+								if ex, ok := rf.(*ssa.Extract); ok && ex.Index == 0 {
+									translated = append(translated, ex)
+								}
+							}
+						}
+					}
+				}
+			}
+			// ... or the call of a helper of the package that makes that callback call and hands back
+			// the translated query (requestQuery(r) (url.Values, error))
+			for _, c := range core.Calls(fn) {
+				cal := c.Common().StaticCallee()
+				if cal == nil || cal.Pkg != fn.Pkg || len(cal.Blocks) == 0 || c.Value() == nil || cal.Signature.Results().Len() == 0 || !isValues(cal.Signature.Results().At(0).Type()) {
+					continue
+				}
+				calls := false
+				for _, h := range p.Helpers(cal) {
+					for _, hc := range core.Calls(h) {
+						if core.IsDynamic(hc) && !hc.Common().IsInvoke() {
+							if f, ok := core.LoadedField(hc.Common().Value); ok && strings.HasSuffix(f.Struct, "queryHandler") {
+								calls = true
+							}
+						}
+					}
+				}
+				if !calls {
+					continue
+				}
+				v := c.Value()
+				if _, isT := v.Type().(*types.Tuple); isT {
+					if v.Referrers() != nil {
+						for _, rf := range *v.Referrers() {
+							if ex, ok := rf.(*ssa.Extract); ok && ex.Index == 0 {
+								translated = append(translated, ex)
+							}
+						}
+					}
+				} else {
+					translated = append(translated, v)
+				}
+			}
+			if len(evCalls) == 0 || len(translated) == 0 {
+				continue
+			}
+			for _, ec := range evCalls {
+				n++
+				arg := ec.Common().Args[0]
+				ok := false
+				for _, src := range phiSources(arg) {
+					for _, t := range translated {
+						if src.V == t {
+							ok = true
+						}
+					}
+				}
+				r.Check(ok, rule, core.FuncName(fn), "Events<-query-returned-by-the-request-handler", p.InstrPos(ec), "the change is asked about the translated (store) query", "QueryChange.Events is called with "+valDesc(arg)+" although a request-handler callback translates the request into the store's query in this function: with a handler that renames or derives parameters, a mutation that changes the result is reported as not affecting the query, and the client keeps a result a fresh get no longer returns")
+			}
+		}
+	}
+	if n == 0 {
+		r.OKTrivial(rule, "store.queryHandler", "Events<-query-returned-by-the-request-handler", "-", "no function of the query handler both translates the request and asks the change")
+	}
 }
